@@ -1094,21 +1094,18 @@ Lemma block_tx_step insync tree unconf mempool txs file tx :
     block_tx insync (Ok (tree, unconf, mempool, txs, file)) tx =
     let sel := select_tx insync unconf mempool tx in
     res_bind (add_hash (if sel then add_merkle_proof tree (fst tx) else tree) (Leaf (fst tx)))
-             (fun t2 => Ok (t2, snd (remove_hash (fst tx) unconf),
-                            (if insync then snd (remove_hash (fst tx) mempool) else mempool),
+             (fun t2 => Ok (t2, snd (remove_hash (fst tx) unconf), snd (remove_hash (fst tx) mempool),
                             txs ++ option_list sel, file1)).
 Proof.
   unfold block_tx, select_tx. simpl.
   rewrite <- (remove_hash_fst (fst tx) unconf).
   destruct (remove_hash (fst tx) unconf) as [in_unconf unconf1]. simpl.
-  destruct insync; simpl.
-  - rewrite <- (remove_hash_fst (fst tx) mempool).
-    destruct (remove_hash (fst tx) mempool) as [in_mempool mempool1]. simpl.
-    destruct in_unconf; [eexists; reflexivity|].
-    destruct in_mempool; simpl; [rewrite andb_false_r, app_nil_r; eexists; reflexivity|].
-    rewrite andb_true_r. destruct (snd tx); simpl; [|rewrite app_nil_r]; eexists; reflexivity.
-  - destruct in_unconf; [eexists; reflexivity|].
-    rewrite andb_true_r. destruct (snd tx); simpl; [|rewrite app_nil_r]; eexists; reflexivity.
+  rewrite <- (remove_hash_fst (fst tx) mempool).
+  destruct (remove_hash (fst tx) mempool) as [in_mempool mempool1]. simpl.
+  destruct in_unconf; [eexists; reflexivity|].
+  destruct (insync && in_mempool); simpl.
+  - rewrite andb_false_r, app_nil_r. eexists; reflexivity.
+  - rewrite andb_true_r. destruct (snd tx); simpl; [|rewrite app_nil_r]; eexists; reflexivity.
 Qed.
 
 (* the registration loop of ProcessBlock keeps the tree invariant: the proofs registered are exactly, and
@@ -1155,7 +1152,7 @@ Proof.
       assert (Hy2 : y <> fst tx) by (intros ->; apply Hy; apply elem_of_app; right; left).
       destruct (Hmem _ Hy1) as [Hu' Hm']. split.
       * rewrite remove_hash_other by exact Hy2. exact Hu'.
-      * destruct insync; [rewrite remove_hash_other by exact Hy2|]; exact Hm'.
+      * rewrite remove_hash_other by exact Hy2. exact Hm'.
 Qed.
 
 Lemma final_valid ids r q root pos hid :
@@ -1179,28 +1176,34 @@ Proof.
   rewrite Nat2Z.id, list_lookup_middle by reflexivity. reflexivity.
 Qed.
 
-(* no transaction that would be delivered as new has a failing output fetch *)
-Definition no_fault (faults : list Z) (txs : list (Z * bool)) : Prop :=
-  Forall (fun tx : Z * bool => snd tx && zmem (fst tx) faults = false) txs.
+(* nothing cuts the second pass short: no transaction that would be delivered as new has a failing output
+   fetch, and every previously seen one has a stored state *)
+Definition tx_aborts (faults : list Z) (states : list (Z * option cproof)) (tx : Z * bool) : bool :=
+  if snd tx then zmem (fst tx) faults else match get_state (fst tx) states with None => true | Some _ => false end.
+Definition no_abort (faults : list Z) (states : list (Z * option cproof)) (txs : list (Z * bool)) : Prop :=
+  Forall (fun tx => tx_aborts faults states tx = false) txs.
 
-(* the second pass: whatever is delivered - all of txs, or only a prefix when an output fetch fails - is a
-   right confirmation of the transaction at that position *)
-Lemma block_events_spec hid hroot faults ids txs ps :
+(* the second pass: whatever is delivered - all of txs, or only a prefix when it is cut short - is a right
+   confirmation of the transaction at that position, built from THIS block's proof whatever the stored
+   state of the transaction carried *)
+Lemma block_events_spec hid hroot faults states ids txs ps :
   ref_root (map Leaf ids) = Some hroot -> zlen ids < 2 ^ 63 ->
   Forall2 (fun (tx : Z * bool) q => proof_at ids (fst tx) q /\ p_root q = hroot /\ exists pos, wf q pos) txs ps ->
   forall done, exists evs code,
-    block_events (hid, hroot) faults (done ++ ps) (zlen done) txs = (evs, code) /\
+    block_events (hid, hroot) faults states (done ++ ps) (zlen done) txs = (evs, code) /\
     Forall2 (conf_ok hid hroot ids) (take (length evs) txs) evs /\
     (code = OK \/ code = ERR) /\
     (code = OK -> length evs = length txs) /\
-    (no_fault faults txs -> code = OK).
+    (no_abort faults states txs -> code = OK).
 Proof.
   intros Hroot Hlen. induction 1 as [|tx q txs ps (Hat & Hr & pos & Hw) _ IH]; intros done.
   - exists [], OK. split; [reflexivity|]. split; [constructor|]. auto.
-  - destruct tx as [txid isnew]. simpl. rewrite index_middle.
-    destruct (isnew && zmem txid faults) eqn:Ef.
+  - destruct tx as [txid isnew]. cbn [block_events]. rewrite index_middle.
+    change (if isnew then zmem txid faults else match get_state txid states with None => true | Some _ => false end)
+      with (tx_aborts faults states (txid, isnew)).
+    destruct (tx_aborts faults states (txid, isnew)) eqn:Ef.
     + exists [], ERR. split; [reflexivity|]. split; [constructor|]. split; [auto|].
-      split; [discriminate|]. intros Hnf. apply Forall_cons in Hnf as [Hnf _]. simpl in Hnf. congruence.
+      split; [discriminate|]. intros Hnf. apply Forall_cons in Hnf as [Hnf _]. congruence.
     + destruct (IH (done ++ [q])) as (evs & code & He & Hall & Hc & Hlen' & Hnf).
       rewrite <- app_assoc, zlen_app in He. simpl in He. change (zlen [q]) with 1 in He. rewrite He.
       eexists _, code. split; [reflexivity|]. split.
@@ -1235,7 +1238,7 @@ Theorem processed_block s hid prev hroot body :
     n_chain s' = (hid, hroot) :: n_chain s /\
     Forall2 (conf_ok hid hroot (map fst body)) (take (length evs) txs) evs /\
     (code = OK \/ code = ERR) /\
-    (no_fault (n_faults s) txs -> code = OK /\ length evs = length txs).
+    (no_abort (n_faults s) (n_states s) txs -> code = OK /\ length evs = length txs).
 Proof.
   intros Hn Hlen Hfresh Hprev Hgate txs. unfold process_block.
   rewrite Hfresh, Hprev, Z.eqb_refl, Hgate. simpl negb. cbv iota.
@@ -1254,7 +1257,7 @@ Proof.
   fold txs in Hall |- *.
   assert (Hall' : Forall2 (fun (tx : Z * bool) q => proof_at (map fst body) (fst tx) q /\ p_root q = hroot /\ exists pos, wf q pos) txs ps).
   { apply Forall2_fmap_l in Hall. exact Hall. }
-  destruct (block_events_spec hid hroot (n_faults s) (map fst body) txs ps Hroot ltac:(rewrite zlen_map; exact Hlen) Hall' [])
+  destruct (block_events_spec hid hroot (n_faults s) (n_states s) (map fst body) txs ps Hroot ltac:(rewrite zlen_map; exact Hlen) Hall' [])
     as (evs & code & He & Hev & Hc & Hl & Hnf).
   change (zlen (@nil mproof)) with 0 in He. change ([] ++ ps) with ps in He. rewrite He.
   assert (Hh : zlen ((hid, hroot) :: n_chain s) = n_height s + 1).
@@ -1274,7 +1277,7 @@ Theorem accepted_block s hid prev hroot body :
   prev = n_tip s ->
   is_merkle_root_valid hroot (map fst body) = true ->
   let txs := selected (n_insync s) (n_unconf s) (n_mempool s) body in
-  no_fault (n_faults s) txs ->
+  no_abort (n_faults s) (n_states s) txs ->
   exists s' evs,
     process_block s hid prev hroot body false = (s', OK, EHeaders (n_height s + 1) hid :: evs) /\
     n_chain s' = (hid, hroot) :: n_chain s /\
@@ -1310,17 +1313,37 @@ Proof.
   simpl. apply IH. apply block_tx_drop_file. exact H.
 Qed.
 
-(* ALIGNMENT FOR REPROCESSED BLOCKS.  Two node states that differ ONLY in what the per-height tx id files
-   already list (s2 = s with other files - say the files a crash in the middle of the first processing of
-   this very block left behind) give the same outcome class and the same notifications for the block. *)
-Theorem reprocessed_block_aligned s hid prev hroot body files :
-  let s2 := NS (n_chain s) (n_unconf s) (n_mempool s) (n_insync s) (n_saved_chain s) (n_saved_unconf s) files (n_faults s) in
+(* the second pass reads of the stored states only whether one exists *)
+Lemma block_events_states_ext hdr faults st1 st2 proofs txs : forall i,
+  (forall t, get_state t st1 = None <-> get_state t st2 = None) ->
+  block_events hdr faults st1 proofs i txs = block_events hdr faults st2 proofs i txs.
+Proof.
+  induction txs as [|[txid isnew] txs IH]; intros i H; [reflexivity|].
+  cbn [block_events]. rewrite (IH (i + 1) H).
+  assert (E : match get_state txid st1 with None => true | Some _ => false end
+            = match get_state txid st2 with None => true | Some _ => false end).
+  { specialize (H txid). destruct (get_state txid st1), (get_state txid st2); auto.
+    - destruct H as [_ H]. discriminate (H eq_refl).
+    - destruct H as [H _]. discriminate (H eq_refl). }
+  rewrite E. reflexivity.
+Qed.
+
+(* ALIGNMENT FOR REPROCESSED / RE-CONFIRMED BLOCKS.  Two node states that differ ONLY in what the per-height
+   tx id files already list and in WHICH PROOFS the stored tx states carry (same transactions have a state)
+   - say the files a crash in the middle of the first processing of this very block left behind, or the
+   proof of a block reverted since that a re-announced transaction still carries - give the same outcome
+   class and the same notifications for the block: every confirmation is rebuilt from the current block. *)
+Theorem reprocessed_block_aligned s hid prev hroot body files states :
+  (forall t, get_state t states = None <-> get_state t (n_states s) = None) ->
+  let s2 := NS (n_chain s) (n_unconf s) (n_mempool s) (n_insync s) (n_saved_chain s) (n_saved_unconf s)
+               files (n_faults s) states in
   snd (fst (process_block s2 hid prev hroot body false)) = snd (fst (process_block s hid prev hroot body false)) /\
   snd (process_block s2 hid prev hroot body false) = snd (process_block s hid prev hroot body false).
 Proof.
-  intros s2. unfold process_block.
+  intros Hst s2. unfold process_block.
   change (n_chain s2) with (n_chain s). change (n_tip s2) with (n_tip s). change (n_insync s2) with (n_insync s).
   change (n_unconf s2) with (n_unconf s). change (n_mempool s2) with (n_mempool s). change (n_faults s2) with (n_faults s).
+  change (n_states s2) with states.
   destruct (existsb _ _ || _); [auto|].
   destruct (negb (prev =? n_tip s)); [auto|].
   destruct (negb _); [auto|]. cbv zeta.
@@ -1334,6 +1357,55 @@ Proof.
   injection H as -> -> -> ->.
   destruct (finalize t1) as [[root ps]| |]; auto.
   destruct (negb _); auto.
-  destruct (block_events _ _ _ _ _) as [evs code].
+  rewrite (block_events_states_ext _ _ states (n_states s) _ _ _ Hst).
+  destruct (block_events _ _ _ _ _ _) as [evs code].
   destruct (code =? OK); auto.
 Qed.
+
+(* ---------------------------------------------------------------------------------------- *)
+(* soundness over histories: every notification a block operation produces - in whatever state the node
+   and its storage are (after any history of arrivals, re-announcements, blocks, reorgs, faults, restarts) -
+   is the block's header announcement or a right confirmation *)
+Lemma process_block_sound s hid prev hroot body :
+  NoDup (map fst body) -> zlen body < 2 ^ 63 ->
+  Forall (block_event_ok hid hroot (map fst body)) (snd (process_block s hid prev hroot body false)).
+Proof.
+  intros Hn Hlen.
+  destruct (existsb (fun h => fst h =? hid) (n_chain s) || (hid =? 0)) eqn:Hfresh.
+  { unfold process_block. rewrite Hfresh. constructor. }
+  destruct (prev =? n_tip s) eqn:Hprev.
+  2:{ unfold process_block. rewrite Hfresh, Hprev. constructor. }
+  apply Z.eqb_eq in Hprev.
+  destruct (is_merkle_root_valid hroot (map fst body)) eqn:Hgate.
+  2:{ unfold process_block. rewrite Hfresh, Hprev, Z.eqb_refl, Hgate. constructor. }
+  destruct (processed_block s hid prev hroot body Hn Hlen Hfresh Hprev Hgate) as (s' & code & evs & Hp & _ & Hev & _).
+  rewrite Hp. simpl. constructor; [reflexivity|].
+  clear -Hev. revert Hev. generalize (selected (n_insync s) (n_unconf s) (n_mempool s) body). intros txs.
+  generalize (take (length evs) txs). intros l H.
+  induction H as [|tx e l evs Hc _ IH]; constructor; [|exact IH].
+  destruct Hc as (cp & -> & Hrest). exists tx, cp. auto.
+Qed.
+
+Theorem step_block_sound s hid prev committed body :
+  NoDup (map fst body) -> zlen body < 2 ^ 63 ->
+  Forall (block_event_ok hid (committed_root committed) (map fst body))
+         (snd (step_ev s (OBlock hid prev committed body false))) /\
+  Forall (block_event_ok hid (committed_root committed) (map fst body))
+         (snd (step_ev s (OReorg hid prev committed body))).
+Proof.
+  intros Hn Hlen. split; simpl.
+  - apply process_block_sound; auto.
+  - unfold process_reorg.
+    destruct (prev =? n_tip s); [apply process_block_sound; auto|].
+    destruct (existsb _ _ || _); [constructor|].
+    destruct (height_in prev (n_chain s)); [apply process_block_sound; auto | constructor].
+Qed.
+
+Theorem history_sound insync ops hid prev committed body :
+  NoDup (map fst body) -> zlen body < 2 ^ 63 ->
+  let s := state_after insync ops in
+  Forall (block_event_ok hid (committed_root committed) (map fst body))
+         (snd (step_ev s (OBlock hid prev committed body false))) /\
+  Forall (block_event_ok hid (committed_root committed) (map fst body))
+         (snd (step_ev s (OReorg hid prev committed body))).
+Proof. intros Hn Hlen s. apply step_block_sound; auto. Qed.
